@@ -57,6 +57,14 @@ def gen_config(rng):
   pool = 'given'
   if api in ('piter', 'pmap') and rng.random() < 0.4:
     pool = 'implicit'
+  if api == 'piter' and rng.random() < 0.04:
+    # As many inputs as a default-sized executor has workers (the scheduler's
+    # executor shim has 8 when max_workers is not given, CPython min(32, cpu+4)):
+    # the pool the library creates itself must still fit inputs + workers.
+    pool = 'implicit'
+    inputs = [rng.choice([1, 2]) for _ in range(8 + rng.choice([0, 1, 3]))]
+    n_in = len(inputs)
+    par = max(par, 1)
   return {'api': api, 'par': par, 'inputs': inputs, 'fn': fn, 'buf': buf,
           'pool': pool, 'pool_size': n_in + max(par, 1) + rng.choice([0, 1, 4])}
 
